@@ -17,7 +17,7 @@ H = {
     'c15_tree_copies_per_insert': 'seg_tree.rs', 'c16_purge_domain32_two_values': 'seg_tree.rs', 'c16_purge_domain128_one_value': 'seg_tree.rs',
     'c12_seg_clear_equals_new': 'seg_tree.rs', 'c14_new_some_iff_more_than_16_points': 'seg_tree.rs',
     'c13_keylist_queries': 'lists.rs', 'c13_keylist_insert': 'lists.rs', 'c13_keylist_export_and_clear': 'lists.rs',
-    'c13_maplist_ops': 'lists.rs', 'c13_setlist_ops': 'lists.rs', 'c12_lists_clear_equals_new': 'lists.rs', 'c18_keylist_callback_state': 'lists.rs', 'c18_keylist_purge_panic_keeps_cache_valid': 'lists.rs',
+    'c13_maplist_ops': 'lists.rs', 'c13_setlist_ops': 'lists.rs', 'c12_lists_clear_equals_new': 'lists.rs', 'c18_keylist_callback_state': 'lists.rs', 'c18_keylist_purge_panic_keeps_cache_valid': 'lists.rs', 'c18_keylist_insert_accessor_panic': 'lists.rs',
     'c18_seg_callback_state': 'seg_tree.rs',
     'probe_insert_only': 'seg_tree.rs', 'probe_new_only': 'seg_tree.rs', 'probe_concrete_insert_symbolic_query': 'seg_tree.rs', 'probe_all_concrete_ranges': 'seg_tree.rs',
 }
@@ -31,7 +31,7 @@ PLAN = {
     'C13': (['c13_maplist_ops', 'c13_setlist_ops', 'c13_keylist_export_and_clear', 'c13_keylist_queries', 'c13_keylist_insert'], []),
     'C14': (['c14_layout_i32', 'c14_layout_u32', 'c14_layout_i64', 'c14_mask_bits_below_count'], []),     # c14_new_some_iff_more_than_16_points: CBMC out of memory after 990 s
     'C15': (['c15_masks_meet_iff_overlap', 'c15_places_tile_range'], ['c15_tree_copies_per_insert']),
-    'C18': (['c18_keylist_callback_state', 'c18_keylist_purge_panic_keeps_cache_valid'], []),
+    'C18': (['c18_keylist_callback_state', 'c18_keylist_purge_panic_keeps_cache_valid', 'c18_keylist_insert_accessor_panic'], []),
     'C19': (['c13_keylist_export_and_clear'], []),
     'C20': (['c13_keylist_queries', 'c13_keylist_insert'], []),
 }
